@@ -769,6 +769,10 @@ static void conf_parse_entry(struct conf_parse *parse, struct conf_node_object *
             node = conf_parse_get_child(parent, name, CONF_STRING, sizeof(*node));
             xfree(node->value);
             node->value = string;
+            /* If this node is spliced into the live tree as it is, the
+             * next load must see that its value is already known.
+             */
+            node->parsed.p_string = string;
             if ((ch == '}') && (parent != &parse->root))
                 return;
         } else if (ch == ',') {
